@@ -63,3 +63,67 @@ def quat_slices(system):
         if c.__class__.__name__ == "RigidBody" or (hasattr(c, "nq") and getattr(c, "nq", 0) == 7 and hasattr(c, "B_Theta_C")):
             out.append(slice(int(c.qDOF[3]), int(c.qDOF[6]) + 1))
     return out
+
+
+# --------------------------------------------------------------------------------------
+# interactions, scalar force laws, actuators, forces
+# --------------------------------------------------------------------------------------
+def make_tpi(ts, s1, s2):
+    from cardillo.interactions import TwoPointInteraction
+
+    return TwoPointInteraction(s1, s2, B_r_CP1=np.array(ts.get("B1", [0, 0, 0]), dtype=float),
+                               B_r_CP2=np.array(ts.get("B2", [0, 0, 0]), dtype=float), name=ts.get("name", "tpi"))
+
+
+def make_force_law(es, inter):
+    """es: {"type": Spring|KelvinVoigt|Maxwell, k, d, l_ref (None allowed), compliance}"""
+    from cardillo.force_laws import Spring, KelvinVoigtElement, MaxwellElement
+
+    t = es["type"]
+    l_ref = es.get("l_ref")
+    if t == "Spring":
+        return Spring(inter, es["k"], l_ref=l_ref, compliance_form=es.get("compliance", True), name="spring")
+    if t == "KelvinVoigt":
+        return KelvinVoigtElement(inter, es["k"], es["d"], l_ref=l_ref, compliance_form=es.get("compliance", True),
+                                  name="kelvin_voigt")
+    if t == "Maxwell":
+        return MaxwellElement(inter, es["k"], es["d"], l_ref=l_ref, q0=np.array([es.get("l_d0", 0.0)], dtype=float),
+                              name="maxwell")
+    raise ValueError(t)
+
+
+def make_actuator(as_, joint):
+    from cardillo.actuators import Motor, PDcontroller, PIDcontroller
+
+    t = as_["type"]
+    w = as_.get("w", 1.0)
+    amp = np.array(as_["amp"], dtype=float)
+    if t == "Motor":
+        a = Motor(joint, lambda t_: float(amp[0] * np.cos(w * t_)))
+    elif t == "PD":
+        a = PDcontroller(joint, as_["kp"], as_["kd"], lambda t_: amp[:2] * np.array([np.cos(w * t_), np.sin(w * t_)]))
+    else:
+        a = PIDcontroller(joint, as_["kp"], as_["ki"], as_["kd"],
+                          lambda t_: amp[:2] * np.array([np.cos(w * t_), np.sin(w * t_)]))
+    a.name = as_.get("name", "actuator_" + t)
+    return a
+
+
+def make_load(ls, body):
+    """ls: {"type": Force|B_Force|Moment|B_Moment, "f0": [3], "f1": [3] (time-dependent part), "B_r_CP": [3]}"""
+    from cardillo.forces import Force, B_Force, Moment, B_Moment
+
+    f0 = np.array(ls["f0"], dtype=float)
+    f1 = np.array(ls.get("f1", [0, 0, 0]), dtype=float)
+    w = ls.get("w", 1.0)
+    fun = (lambda t_: f0 + f1 * np.sin(w * t_)) if np.any(f1) else f0
+    t = ls["type"]
+    xi = ls.get("xi")
+    kw = {} if xi is None else {"xi": (float(xi),)}
+    if t in ("Force", "B_Force"):
+        cls = Force if t == "Force" else B_Force
+        o = cls(fun, body, B_r_CP=np.array(ls.get("B_r_CP", [0, 0, 0]), dtype=float), name=ls.get("name", t), **kw)
+    else:
+        cls = Moment if t == "Moment" else B_Moment
+        o = cls(fun, body, name=ls.get("name", t), **kw)
+    return o
